@@ -162,6 +162,17 @@ func run(c *Ctx) {
 		if len(f) == 2 && f[0] == "FMT2" {
 			one(c, Unhx(f[1]), true, &s)
 		}
+		if len(f) == 2 && f[0] == "SHEBANG" {
+			src := Unhx(f[1])
+			for _, compact := range []bool{false, true} {
+				e1, ok1 := EntryFormat(src, compact)
+				e2, _ := EntryFormat(e1, compact)
+				fmt.Printf("compact=%v ok=%v entry=%q again=%q\n", compact, ok1, e1, e2)
+				if !compact && (len(e1) == 0 || e1[len(e1)-1] != '\n' || (len(e1) > 1 && e1[len(e1)-2] == '\n')) || !bytes.Equal(e1, e2) {
+					c.Fail("shebang-replay", c.ReplayCase, fmt.Sprintf("%q -> %q -> %q", src, e1, e2))
+				}
+			}
+		}
 		return
 	}
 	var s st
@@ -193,6 +204,42 @@ func run(c *Ctx) {
 		}
 		one(c, []byte(p), true, &s)
 	}
+	// shebang scripts through the entry point (`grol -format script`): the #! line is not part of the program; whatever the entry
+	// point does with it, the output is the printer's for the rest of the file, ends with exactly one newline in normal mode
+	// (also when nothing follows the #! line) and is a fixpoint
+	nsh := 0
+	for _, sb := range []string{"#!/usr/bin/env grol\n", "#!/bin/grol -s\n", "#!\n"} { // (a #! line without an end is not a script: the entry point reports a parse error)
+		for _, body := range []string{"", "\n", "\n\n", "x = 1", "x = 1\n", "// c\n", "func f(a) {\n\ta + 1\n}\nf(2)\n", "/* a */ y = [1,\n2]\n\n"} {
+			src := []byte(sb + body)
+			rest := []byte(body)
+			if !strings.HasSuffix(sb, "\n") {
+				rest = nil // the #! line has no end: the whole input is that line
+			}
+			for i, compact := range []bool{false, true} {
+				mode := []string{"normal", "compact"}[i]
+				cs := "SHEBANG " + Hx(src)
+				c.Eval()
+				nsh++
+				e1, ok1 := EntryFormat(src, compact)
+				prog, okp := ParseClean(rest)
+				if !ok1 || !okp {
+					c.Fail("shebang-script-rejected:"+mode, cs, fmt.Sprintf("src=%q entry ok=%v body parses=%v", src, ok1, okp))
+					continue
+				}
+				want, _ := Format(prog, compact)
+				if !bytes.Equal(e1, want) {
+					c.Fail("shebang-entry-output-differs-from-printer:"+mode, cs, fmt.Sprintf("src=%q entry=%q printer(body)=%q", src, e1, want))
+				}
+				if !compact && (len(e1) == 0 || e1[len(e1)-1] != '\n' || (len(e1) > 1 && e1[len(e1)-2] == '\n')) {
+					c.Fail("normal-mode-final-newline:shebang", cs, fmt.Sprintf("src=%q entry=%q", src, e1))
+				}
+				if e2, ok2 := EntryFormat(e1, compact); !ok2 || !bytes.Equal(e1, e2) {
+					c.Fail("idempotence-entry-point:shebang:"+mode, cs, fmt.Sprintf("src=%q f=%q ff=%q", src, e1, e2))
+				}
+			}
+		}
+	}
+	c.Dist["shebang-entry-inputs"] = nsh
 	files, _ := filepath.Glob("/repo/examples/*.gr")
 	more, _ := filepath.Glob("/repo/tests/*.gr")
 	for _, f := range append(files, more...) {
